@@ -546,10 +546,13 @@ fn chol_case(rep: &mut Report, rng: &mut Rng, n: usize) {
 }
 
 fn chol_check(rep: &mut Report, rng: &mut Rng, n: usize, a: Vec<f64>, how: String) {
+    chol_check_in(rep, rng, "chol-spd", n, a, how)
+}
+
+fn chol_check_in(rep: &mut Report, rng: &mut Rng, regime: &'static str, n: usize, a: Vec<f64>, how: String) {
     // bit-identity of the two implementations is filed per order band: the Matrix form takes dot
     // products of whole zero-padded rows, the slice form of prefixes; with the 8-way unrolled `dot`
     // the two summation orders coincide up to order 15 and differ from order 16 on
-    let regime = "chol-spd";
     rep.case(regime);
     rep.distinct(Hasher::new().s(regime).u(n as u64).u(bits_digest(&a)).finish(), n >= 2 && !is_diagonal(&a, n));
     let m = mat(&a, n);
@@ -563,6 +566,9 @@ fn chol_check(rep: &mut Report, rng: &mut Rng, n: usize, a: Vec<f64>, how: Strin
             Ok(l) => {
                 rep.check("C11.chol.no_panic", regime, true, || json!(null));
                 check_chol_factor(rep, regime, &how, form, &a, n, &l);
+                if regime == GRADED_SPD && l.len() == n * n && all_finite(&l) {
+                    check_chol_scaled(rep, regime, &how, form, &a, n, &l);
+                }
             }
         }
     }
@@ -635,7 +641,145 @@ fn nonpd_case(rep: &mut Report, rng: &mut Rng, n: usize, psd: bool) {
 }
 
 fn nonpd_check(rep: &mut Report, n: usize, psd: bool, a: &[f64], how: &str) {
-    let regime = if psd { "chol-nonpd:psd-singular" } else { "chol-nonpd:sym-indef-posdiag" };
+    nonpd_check_in(rep, if psd { "chol-nonpd:psd-singular" } else { "chol-nonpd:sym-indef-posdiag" }, n, a, how)
+}
+
+// ------------------------------------------------------------------------------------------------
+// badly scaled input: row/column scalings D·A·D and entries spanning hundreds of decades
+
+const GRADED_SPD: &str = "chol-spd:graded";
+const NONPD_CONGRUENCE: &str = "chol-nonpd:graded-congruence";
+const NONPD_WILD: &str = "chol-nonpd:wild-entries";
+const NONPD_BORDERED: &str = "chol-nonpd:spd-block-wild-border";
+
+/// D·A·D with D = diag(2^k_i), k_i uniform in -kmax..=kmax (exact: a congruence, so definiteness and
+/// the exact Cholesky factor D·L carry over as long as nothing leaves the normal range)
+fn congruence_scale(rng: &mut Rng, a: &mut [f64], n: usize, kmax: i64) -> Vec<i32> {
+    let k: Vec<i32> = (0..n).map(|_| rng.int(-kmax, kmax) as i32).collect();
+    for i in 0..n {
+        for j in 0..n {
+            a[i * n + j] = a[i * n + j] * 2f64.powi(k[i]) * 2f64.powi(k[j]);
+        }
+    }
+    k
+}
+
+/// ±10^u with u uniform in [lo, hi]
+fn wild(rng: &mut Rng, lo: f64, hi: f64) -> f64 {
+    10f64.powf(rng.range(lo, hi)) * if rng.bool() { 1.0 } else { -1.0 }
+}
+
+/// Make the 2x2 principal minor (p, q) negative by raising |a_pq| above sqrt(a_pp·a_qq) (factor
+/// 10^0.1..10^2, computed on the exponents so that nothing overflows); true if the final entries
+/// certify a_pq² > a_pp·a_qq with margin, which makes the matrix not positive (semi-)definite.
+fn force_negative_minor(rng: &mut Rng, a: &mut [f64], n: usize, p: usize, q: usize) -> bool {
+    let need = 0.5 * (a[p * n + p].log10() + a[q * n + q].log10()) + rng.range(0.1, 2.0);
+    if a[p * n + q].abs().log10() < need {
+        let v = 10f64.powf(need) * if rng.bool() { 1.0 } else { -1.0 };
+        a[p * n + q] = v;
+        a[q * n + p] = v;
+    }
+    let v = a[p * n + q];
+    v.is_finite() && 2.0 * v.abs().log10() - a[p * n + p].log10() - a[q * n + q].log10() >= 0.05
+}
+
+/// Symmetric, positive diagonal, not positive definite, at wild scales. Three constructions:
+/// congruence-scaled indefinite matrices; symmetric matrices whose entries have independent magnitudes
+/// 10^u over up to 550 decades; a (possibly congruence-graded) SPD leading block bordered by rows of
+/// such independent magnitudes (the loss of definiteness is only met after some good pivots).
+fn gen_nonpd_graded(rng: &mut Rng, regime: &'static str, n: usize) -> Option<(Vec<f64>, String)> {
+    let span = *rng.choose(&[(5.0, 5.0), (40.0, 40.0), (150.0, 150.0), (300.0, 250.0)]);
+    match regime {
+        NONPD_CONGRUENCE => {
+            let mut a = gen_sym_indef(rng, n);
+            let kmax = *rng.choose(&[10i64, 60, 200, 498]);
+            let k = congruence_scale(rng, &mut a, n, kmax);
+            // the defining minor must have survived the scaling (it does unless an entry left the normal range)
+            let bad = (0..n).any(|p| (p + 1..n).any(|q| 2.0 * a[p * n + q].abs().log10() - a[p * n + p].log10() - a[q * n + q].log10() >= 0.05));
+            if !bad || !all_finite(&a) || (0..n).any(|i| !(a[i * n + i] > 0.0)) {
+                return None;
+            }
+            Some((a, format!("D·A·D, A symmetric uniform(-1,1) with diagonal in (0.1,1) and one negative 2x2 principal minor, D = diag(2^k), k = {:?}", k)))
+        }
+        NONPD_WILD => {
+            let (lo, hi) = span;
+            let mut a = vec![0.0; n * n];
+            for i in 0..n {
+                for j in i..n {
+                    let v = if i == j { wild(rng, -lo, hi).abs() } else { wild(rng, -lo, hi) };
+                    a[i * n + j] = v;
+                    a[j * n + i] = v;
+                }
+            }
+            let p = rng.usize(0, n - 2);
+            let q = rng.usize(p + 1, n - 1);
+            if !force_negative_minor(rng, &mut a, n, p, q) {
+                return None;
+            }
+            Some((a, format!("symmetric, entries ±10^u with independent u in [-{}, {}], positive diagonal, 2x2 principal minor ({},{}) negative", lo, hi, p, q)))
+        }
+        _ => {
+            let (lo, hi) = span;
+            let r = rng.usize(1, n - 1);
+            let (s, show) = if rng.chance(0.4) { gen_spd_sparse(rng, r) } else { gen_spd(rng, r) };
+            let mut s = s;
+            let kmax = *rng.choose(&[0i64, 60, 200, 498]);
+            let k = congruence_scale(rng, &mut s, r, kmax);
+            let mut a = vec![0.0; n * n];
+            for i in 0..n {
+                for j in i..n {
+                    let v = if i < r && j < r {
+                        s[i * r + j]
+                    } else if i == j {
+                        wild(rng, -lo, hi).abs()
+                    } else {
+                        wild(rng, -lo, hi)
+                    };
+                    a[i * n + j] = v;
+                    a[j * n + i] = v;
+                }
+            }
+            // a negative 2x2 minor that involves a border row, so the leading block stays definite
+            let q = rng.usize(r, n - 1);
+            let p = if q > r && rng.bool() { rng.usize(r, q - 1) } else { rng.usize(0, r - 1) };
+            if !all_finite(&a) || (0..n).any(|i| !(a[i * n + i] > 0.0)) || !force_negative_minor(rng, &mut a, n, p, q) {
+                return None;
+            }
+            Some((a, format!("leading {}x{} block D·S·D with S = {} and D = diag(2^k), k = {:?}; the other rows/columns ±10^u with independent u in [-{}, {}], positive diagonal, 2x2 principal minor ({},{}) negative", r, r, show, k, lo, hi, p, q)))
+        }
+    }
+}
+
+/// positive definite with the same row/column gradings: D·S·D, S SPD (dense or sparse), D = diag(2^k)
+fn gen_spd_graded(rng: &mut Rng, n: usize) -> (Vec<f64>, String) {
+    let (mut a, show) = if rng.chance(0.3) { gen_spd_sparse(rng, n) } else { gen_spd(rng, n) };
+    let kmax = *rng.choose(&[10i64, 60, 120, 200]);
+    let k = congruence_scale(rng, &mut a, n, kmax);
+    (a, format!("D·S·D with S = {} and D = diag(2^k), k = {:?}", show, k))
+}
+
+/// On graded input the normwise reconstruction bound says nothing about the small rows; the
+/// factorisation is backward stable entry by entry relative to sqrt(a_ii·a_jj) (|ΔA| ≤ γ_{n+1}|L||Lᵀ|
+/// and (|L||Lᵀ|)_ij ≤ ‖l_i‖‖l_j‖ ≈ sqrt(a_ii·a_jj)), a bound that is invariant under D·A·D.
+fn check_chol_scaled(rep: &mut Report, regime: &str, how: &str, form: &str, a: &[f64], n: usize, l: &[f64]) {
+    let mut worst = 0.0f64;
+    for i in 0..n {
+        for j in 0..=i {
+            let e = sum_prod_minus(a[i * n + j], j + 1, |t| (l[i * n + t], l[j * n + t]));
+            let sc = a[i * n + i].sqrt() * a[j * n + j].sqrt();
+            let r = e / sc;
+            worst = if r.is_nan() { f64::INFINITY } else { worst.max(r) };
+        }
+    }
+    let tol = C * n as f64 * EPS;
+    let ok = worst <= tol;
+    if ok {
+        rep.note_max("worst_ratio.chol.graded.entrywise_reconstruct_over_n_eps_sqrt_aii_ajj", worst / (n as f64 * EPS));
+    }
+    rep.check("C11.chol.reconstruct_scaled", regime, ok, || detail(regime, how, n, a, json!({"form": form, "L": jf(l), "max_ij |(L L^T - A)_ij| / sqrt(a_ii a_jj)": jnum(worst), "bound": jnum(tol)})));
+}
+
+fn nonpd_check_in(rep: &mut Report, regime: &'static str, n: usize, a: &[f64], how: &str) {
     let (a, how) = (a.to_vec(), how.to_string());
     rep.case(regime);
     rep.distinct(Hasher::new().s(regime).u(n as u64).u(bits_digest(&a)).finish(), true);
@@ -879,6 +1023,7 @@ pub fn run(cfg: &Cfg, rep: &mut Report) {
     rep.assume("orders 1..32; SPD input has condition number <= 1e8 (G^T G + delta I); entries are finite and far from overflow (|a| <= 1e3)");
     rep.assume(&format!("rounding bounds: |L L^T - A|_inf <= C n eps |A|_inf; |P A - L U|_inf <= C n eps |L|_inf |U|_inf; triangular / factor solves: backward error <= C n eps; C = {}, eps = 2^-52", C));
     rep.assume("determinant of integer matrices (|a| <= 5, order <= 12): |sign·prod(diag U) - det_exact| <= C n eps (sum_ij (|L||U|)_ij |cofactor_ij| + |det|) + (C n eps)^2 · Hadamard bound; exact equality for (scaled) permutation matrices");
+    rep.assume("graded regimes: D = diag(2^k), |k| <= 498 (non-PD) resp. <= 200 (PD, so that |A|·|x| stays in range); wild entries are ±10^u with u in [-300, 250]; every input is finite, exactly symmetric, has a positive diagonal, and the non-PD ones carry a 2x2 principal minor with a_pq^2 >= 10^0.05 a_pp a_qq; for these inputs the monitor demands a panic or a finite returned factor, nothing about the factor's accuracy; on chol-spd:graded the factor is additionally checked entrywise: |(L L^T - A)_ij| <= C n eps sqrt(a_ii a_jj)");
     rep.assume("lu_solve is only judged when cond_inf(A) <= 1e10 (double-double inverse); a PSD-singular input for which cholesky returns a *finite* factor is counted (chol-nonpd:outcome:finite-factor-returned) but not a violation: the property forbids non-finite factors");
     if cfg.miri() {
         rep.assume("Miri layer: residual sums are accumulated in plain f64 instead of double-double (their own rounding error adds < 1 to ratios compared with C = 16), cond_inf comes from an f64 Gauss-Jordan inverse, the Bareiss/cofactor reference is limited to order <= 5, LU orders are {1,3,6,12}, permutation matrices are enumerated to order 3 (+ the order-4 cycle)");
@@ -951,6 +1096,32 @@ pub fn run(cfg: &Cfg, rep: &mut Report) {
         nonpd_case(rep, rng, n, i % 2 == 1);
     });
 
+    // 7. not positive definite at wild scales: still a panic or a finite factor, never inf/NaN (orders 2..Nmax)
+    const NONPD_GRADED: [&str; 3] = [NONPD_CONGRUENCE, NONPD_WILD, NONPD_BORDERED];
+    let n7 = cfg.pick(900, 18000, if miri { 3 } else { 9 });
+    par_cases(cfg, rep, 7, n7, |i, rng, rep| {
+        let regime = NONPD_GRADED[i % 3];
+        let n = 2 + (i / 3) % (nmax - 1);
+        for _attempt in 0..20 {
+            if let Some((a, how)) = gen_nonpd_graded(rng, regime, n) {
+                nonpd_check_in(rep, regime, n, &a, &how);
+                return;
+            }
+        }
+        rep.seen("chol-nonpd:graded-generator-gave-up", 1);
+    });
+
+    // 8. positive definite with the same gradings must still factor correctly
+    let n8 = cfg.pick(320, 8000, if miri { 3 } else { 8 });
+    par_cases(cfg, rep, 8, n8, |i, rng, rep| {
+        let n = 1 + i % nmax;
+        let (a, how) = gen_spd_graded(rng, n);
+        chol_check_in(rep, rng, GRADED_SPD, n, a, how);
+    });
+
+    for r in [GRADED_SPD, NONPD_CONGRUENCE, NONPD_WILD, NONPD_BORDERED] {
+        rep.require(r, 1);
+    }
     for r in ["chol-spd", "substitution", "chol-nonpd:sym-indef-posdiag", "chol-nonpd:psd-singular", "lu:perm-matrix:exhaustive", "lu:perm-scaled", "det:pivot-cycle>=3", "det:pivot-involution", "det:bareiss-reference", "det:exact-arithmetic-reference", "lu_solve:nonsingular-input"] {
         rep.require(r, 1);
     }
